@@ -54,7 +54,7 @@ var propertyCanaries = map[string][]string{
 	"C03": {"GUARD.operand", "FLAG.uplomap", "STRIDE.veclda", "FACTKIND.pair", "LOOPIDX.origin", "ARGS.order", "ARGS.lencheck", "ARGS.query", "LOOPIDX.unused", "OKFLOW.report", "STRIDE.workld", "STRIDE.worknext", "WORKSIZE.min"},
 	"C04": {"STRIDE.contig", "TWIN.bounds", "NILRECV"},
 	"C05": {"OVERLAP.extent", "OVERLAP.guard", "MODSET.mat", "OVERLAP.symmetric", "TWIN.shadow"},
-	"C06": {"FACTKIND.pair", "OKFLOW.use", "OKFLOW.cond", "OKFLOW.report", "FACT.normorder", "FACT.state", "FACT.condunit", "NILRECV"},
+	"C06": {"OKFLOW.condpath", "FACT.condafter", "FACTKIND.pair", "OKFLOW.use", "OKFLOW.cond", "OKFLOW.report", "FACT.normorder", "FACT.state", "FACT.condunit", "NILRECV"},
 	"C07": {"ARGS.arms", "ARGS.strict", "ARGS.fullrow", "WORKSIZE.querylen", "ARGS.order", "ARGS.lencheck", "ARGS.query", "MAT.order", "ASM.window", "ASM.tail", "STRIDE.len"},
 	"C08": {"ASM.lost", "PARAMUSE.read", "ASM.window", "ASM.tail", "ASM.units", "STRIDE.extent", "SIB.guards"},
 	"C09": {"GOPROTO.scratch", "GLOBAL.write", "GOPROTO.capture", "GOPROTO.lockpair", "GOPROTO.sibling", "POOL.uaf"},
@@ -95,6 +95,8 @@ func init() {
 		{"ASM.lost", "internal/asm/c64/dotcunitary_amd64.s", "\tCMPQ TAIL, $0 // if TAIL == 0 { return }\n\tJE   dotc_end", "\tCMPQ TAIL, $0 // if TAIL == 0 { return }\n\tJE   dotc_ret", func() *core.Result { return asmx.Run() }},
 		{"ARGS.fullrow", "blas/gonum/dgemm.go", "len(c) < (m-1)*ldc+n", "len(c) < m*ldc", func() *core.Result { return worksize.RunArms(def, core.Pkgs("./blas/gonum")) }},
 		{"DECODE.order", "mat/io.go", "\tif len(data) != headerSize+int(rows*cols)*sizeFloat64 {\n\t\treturn errBadBuffer\n\t}\n", "\tm.reuseAsNonZeroed(int(rows), int(cols))\n\tif len(data) != headerSize+int(rows*cols)*sizeFloat64 {\n\t\treturn errBadBuffer\n\t}\n", func() *core.Result { return decode.RunOrder(def, core.Pkgs("./mat")) }},
+		{"OKFLOW.condpath", "mat/cholesky.go", "\t\tlapack64.Potrs(c.chol.mat, dst.asGeneral())\n\t\tif c.cond > ConditionTolerance {\n\t\t\treturn Condition(c.cond)\n\t\t}\n\t\treturn nil", "\t\tlapack64.Potrs(c.chol.mat, dst.asGeneral())\n\t\treturn nil", func() *core.Result { return okflow.Run(def, core.Pkgs("./mat", "./lapack/lapack64", "./lapack/gonum")) }},
+		{"FACT.condafter", "mat/lq.go", "\tlapack64.Gelqf(lq.lq.mat, lq.tau, work, len(work))\n\tputFloat64s(work)\n\tlq.updateCond(norm)", "\tlq.updateCond(norm)\n\tlapack64.Gelqf(lq.lq.mat, lq.tau, work, len(work))\n\tputFloat64s(work)", func() *core.Result { return factx.Run(def) }},
 		{"WORKSIZE.min", "lapack/gonum/dgels.go", "wsize := max(1, mn+max(mn, nrhs)*nb)", "wsize := max(1, mn+mn*nb)", wsz},
 		{"WORKSIZE.querylen", "lapack/gonum/dormqr.go", "case lwork < max(1, nw) && lwork != -1:\n\t\tpanic(badLWork)", "case lwork < max(1, nw) && lwork != -1:\n\t\tpanic(badLWork)\n\tcase len(tau) != k:\n\t\tpanic(badLenTau)", wsz},
 		{"WORKSIZE.min", "lapack/gonum/dsyev.go", "lworkopt := max(1, (nb+2)*n)", "lworkopt := max(1, (nb+1)*n)", wsz},
